@@ -966,12 +966,58 @@ Qed.
 
 (* ---------- referrers tag schema ---------- *)
 
+Lemma clean_index_aux_spec seen items :
+  NoDup (map fst (clean_index_aux seen items)) /\
+  (forall x, In x (clean_index_aux seen items) -> In x items /\ fst x <> [] /\ ~ In (fst x) seen) /\
+  (forall x, In x items -> fst x <> [] -> ~ In (fst x) seen -> In (fst x) (map fst (clean_index_aux seen items))).
+Proof.
+  revert seen. induction items as [|it r IH]; intro seen; simpl.
+  - split; [constructor|]. split; [intros x []|intros x []].
+  - destruct (is_empty (fst it) || existsb (str_eqb (fst it)) seen) eqn:E.
+    + destruct (IH seen) as (N & A & B). split; [exact N|]. split.
+      * intros x H. destruct (A x H) as (A1 & A2 & A3). auto.
+      * intros x [<-|H] Hne Hs; [|now apply B].
+        exfalso. apply orb_true_iff in E as [E|E].
+        -- destruct (fst it); [now apply Hne|discriminate].
+        -- apply existsb_exists in E as (y & Hy & Ey). apply str_eqb_spec in Ey. subst y. contradiction.
+    + apply orb_false_iff in E as [E1 E2].
+      assert (Hne : fst it <> []) by (destruct (fst it); [discriminate|discriminate]).
+      assert (Hns : ~ In (fst it) seen).
+      { intro H. assert (X : existsb (str_eqb (fst it)) seen = true).
+        { apply existsb_exists. exists (fst it). split; [exact H|apply str_eqb_refl]. }
+        congruence. }
+      destruct (IH (fst it :: seen)) as (N & A & B). simpl. split.
+      * constructor; [|exact N]. intro H. apply in_map_iff in H as (x & Ex & Hx).
+        destruct (A x Hx) as (_ & _ & A3). apply A3. left. now symmetry.
+      * split.
+        -- intros x [<-|H]; [auto|]. destruct (A x H) as (A1 & A2 & A3).
+           split; [now right|]. split; [exact A2|]. intro Hs. apply A3. now right.
+        -- intros x [<-|H] Hx Hs; [now left|].
+           destruct (list_eq_dec N.eq_dec (fst x) (fst it)) as [Eq|Nq]; [left; now symmetry|].
+           right. apply B; auto. intros [Eq|Hs']; [apply Nq; now symmetry|contradiction].
+Qed.
+
+Lemma NoDup_map_filter {A B} (g : A -> B) (f : A -> bool) l :
+  NoDup (map g l) -> NoDup (map g (filter f l)).
+Proof.
+  induction l as [|x l IH]; simpl; intro H; [constructor|].
+  inversion H as [|? ? Hn Hd]; subst.
+  destruct (f x); simpl; [|now apply IH].
+  constructor; [|now apply IH]. intro Hi. apply Hn.
+  apply in_map_iff in Hi as (y & Ey & Hy). apply filter_In in Hy as [Hy _].
+  apply in_map_iff. now exists y.
+Qed.
+
+Lemma filter_referrers_NoDup l a : NoDup (map fst l) -> NoDup (map fst (filter_referrers l a)).
+Proof. unfold filter_referrers. destruct (is_empty a); [auto|apply NoDup_map_filter]. Qed.
+
 Lemma tag_schema_spec limit size items a cb_fail :
   let r := tag_schema limit true size items a cb_fail in
   ((eff_limit limit < size)%Z -> r = ([], ErrSize)) /\
   ((size <= eff_limit limit)%Z ->
      Forall (fun p => p <> []) (fst r) /\
-     concat (fst r) = filter_referrers items a /\
+     concat (fst r) = filter_referrers (clean_index items) a /\
+     NoDup (map fst (concat (fst r))) /\
      (snd r = Done \/ (snd r = ErrCallback /\ cb_fail 0%nat = true /\ fst r <> [])) /\
      (cb_fail 0%nat = false -> snd r = Done)).
 Proof.
@@ -979,12 +1025,43 @@ Proof.
   - intro H. apply limit_size_spec in H. now rewrite H.
   - intro H. assert (E : limit_size_rejects limit size = false).
     { destruct (limit_size_rejects limit size) eqn:E; [|reflexivity]. apply limit_size_spec in E. lia. }
-    rewrite E. destruct (filter_referrers items a) as [|x f] eqn:F.
-    + simpl. repeat split; auto.
+    rewrite E.
+    pose proof (filter_referrers_NoDup (clean_index items) a (proj1 (clean_index_aux_spec [] items))) as ND.
+    destruct (filter_referrers (clean_index items) a) as [|x f] eqn:F.
+    + simpl. repeat split; auto; constructor.
     + destruct (cb_fail 0%nat) eqn:C; simpl; rewrite app_nil_r.
-      * split; [repeat constructor; discriminate|]. split; [reflexivity|]. split; [|discriminate].
+      * split; [repeat constructor; discriminate|]. split; [reflexivity|]. split; [exact ND|]. split; [|discriminate].
         right. split; [reflexivity|]. split; [reflexivity|discriminate].
-      * split; [repeat constructor; discriminate|]. split; [reflexivity|]. split; [now left|reflexivity].
+      * split; [repeat constructor; discriminate|]. split; [reflexivity|]. split; [exact ND|]. split; [now left|reflexivity].
+Qed.
+
+(* what the cleaned index holds: every non-empty name of the index exactly once, with the
+   attributes of its first entry; nothing else *)
+Lemma clean_index_spec items :
+  NoDup (map fst (clean_index items)) /\
+  (forall x, In x (clean_index items) -> In x items /\ fst x <> []) /\
+  (forall x, In x items -> fst x <> [] -> In (fst x) (map fst (clean_index items))) /\
+  (NoDup (map fst items) -> (forall x, In x items -> fst x <> []) -> clean_index items = items).
+Proof.
+  unfold clean_index. destruct (clean_index_aux_spec [] items) as (N & A & B).
+  split; [exact N|]. split; [intros x H; destruct (A x H) as (A1 & A2 & _); auto|].
+  split; [intros x H Hne; apply B; auto|].
+  assert (G : forall (l : list item) seen, NoDup (map fst l) -> (forall x, In x l -> fst x <> []) ->
+              (forall x, In x l -> ~ In (fst x) seen) -> clean_index_aux seen l = l).
+  { clear. induction l as [|it r IH]; intros seen Hnd Hne Hs; cbn [clean_index_aux]; [reflexivity|].
+    inversion Hnd as [|? ? Hn Hd]; subst.
+    assert (E1 : is_empty (fst it) = false).
+    { destruct (fst it) eqn:E; [exfalso; apply (Hne it); [now left|exact E]|reflexivity]. }
+    assert (E2 : existsb (str_eqb (fst it)) seen = false).
+    { destruct (existsb (str_eqb (fst it)) seen) eqn:E; [|reflexivity].
+      apply existsb_exists in E as (y & Hy & Ey). apply str_eqb_spec in Ey. subst y.
+      exfalso. apply (Hs it); [now left|exact Hy]. }
+    rewrite E1, E2. cbn [orb]. f_equal. simpl in Hnd. apply IH; auto.
+    - intros x Hx. apply Hne. now right.
+    - intros x Hx [Eq|Hi].
+      + apply Hn. rewrite Eq. now apply in_map.
+      + apply (Hs x); [now right|exact Hi]. }
+  intros Hnd Hne. apply G; auto.
 Qed.
 
 Lemma tag_schema_absent limit size items a cb_fail :
